@@ -60,7 +60,187 @@ def gen_where_more(tier, rng):
                                                            'ranks-differ' if len(ranks) > 1 else 'ranks-equal'])
 
 
-GENS = [gen_where_more]
+# ---------------------------------------------------------------------------------------------------------------
+# arange: long ranges (probed at selected positions), the binary32 range of index::arange_shape
+# ---------------------------------------------------------------------------------------------------------------
+
+H_E = 'h_c04e'
+F32 = 2 ** 24
+
+
+def harness_specs_gen(tier):
+    return [dict(name=H_E, src='h_c04e.cpp', flavour='fast')]
+
+
+def arange_len_def(start, stop, sn, sd=1):
+    """NumPy's count max(0, ceil((stop - start) / step)) for step = sn/sd, in exact integer arithmetic"""
+    a = (stop - start) * sd
+    if sn > 0:
+        return (a + sn - 1) // sn if a > 0 else 0
+    return (-a + (-sn) - 1) // (-sn) if a < 0 else 0
+
+
+def fmt_q(x):
+    x = Fraction(x)
+    return str(x.numerator) if x.denominator == 1 else '%d/%d' % (x.numerator, x.denominator)
+
+
+def parse_at(a):
+    """'ok shape=L at=..' -> (L, [floats])"""
+    if not isinstance(a, str) or not a.startswith('ok shape=') or ' at=' not in a:
+        return None
+    try:
+        sh, at = a[3:].split(' ')
+        at = at[len('at='):]
+        return sh[len('shape='):], ([] if at == '[]' else [float(Fraction(x)) for x in at.split(',')])
+    except ValueError:
+        return None
+
+
+def cmp_at_scaled(scale):
+    """shape exactly; values within 1e-6 * max(1, scale): the rounding error of `start + k*step` in binary32 is relative to
+    the magnitude of the operands (start, stop, stop - start), not to a result that may have cancelled"""
+    tol = c04_bc.REL_TOL * max(1.0, scale)
+
+    def cmp(a, b):
+        pa, pb = parse_at(a), parse_at(b)
+        if pa is None or pb is None:
+            return a == b
+        if pa[0] != pb[0] or len(pa[1]) != len(pb[1]):
+            return False
+        return all(x == x and y == y and abs(x - y) <= tol for x, y in zip(pa[1], pb[1]))
+    return cmp
+
+
+cmp_at = cmp_at_scaled(1.0)
+
+
+def in_f32_range(start, stop, sn, sd=1):
+    """range A of the model (Index/Generators.lean, arangeLen): both conversions exact, quotient ceiling exact"""
+    return abs(stop - start) * sd < F32 and abs(sn) < F32
+
+
+def arange_beyond_f32(case):
+    """known-finding class arange.float32-length: an arange request whose difference or step leaves the binary32-exact
+    range (decided from the request alone)"""
+    op, d = c04_bc_parse(case.req)
+    if op not in ('arange', 'arange_at') or 'start' not in d or 'stop' not in d:
+        return False
+    try:
+        start, stop = int(d['start']), int(d['stop'])
+        if 'stepq' in d:
+            sn, sd = int(d['stepq']), 4
+        else:
+            sn, sd = (1 if d.get('step') == 'None' else int(d['step'])), 1
+    except (KeyError, ValueError):
+        return False
+    return not in_f32_range(start, stop, sn, sd)
+
+
+def c04_bc_parse(req):
+    parts = req.split()
+    return parts[0], dict(kv.split('=', 1) for kv in parts[1:])
+
+
+KNOWN_PREDICATES_GEN = {'arange_beyond_f32': arange_beyond_f32}
+
+
+def gen_arange_long(tier, rng):
+    n = 120 if tier == 'quick' else 1500
+    # (1) long ranges inside the binary32-exact range, elements probed at a few positions (dom: arange_len / arange_shape_elem)
+    for _ in range(n):
+        kind = rng.choice(('int', 'int', 'float', 'double'))
+        real_step = kind != 'int' and rng.random() < 0.6
+        sd = 4 if real_step else 1
+        span = rng.randint(1, (F32 - 1) // sd)
+        start = rng.randint(-span, span)
+        sign = rng.choice((1, -1))
+        stop = start + sign * rng.randint(0, span - 1) if rng.random() < 0.9 else start - sign * rng.randint(0, 50)
+        if abs(stop - start) * sd >= F32:
+            continue
+        if kind == 'float':
+            # elements start + k*step are exact in binary32 only while every intermediate stays below 2^24 / sd
+            if max(abs(start), abs(stop)) * sd >= F32 // 2:
+                continue
+        mag = rng.choice((1, 2, 3, 7, 100, 12345, rng.randint(1, 2 ** 20)))
+        sn = (sign if rng.random() < 0.9 else -sign) * mag
+        L = arange_len_def(start, stop, sn, sd)
+        pos = sorted({0, 1, L // 2, L - 2, L - 1} & set(range(L)))
+        step_s = 'stepq=%d' % sn if real_step else 'step=%d' % sn
+        vals = [Fraction(start) + Fraction(k * sn, sd) for k in pos]
+        if kind == 'float' and any(abs(v) * sd >= F32 for v in vals):
+            continue
+        o = 'ok shape=%d at=%s' % (L, ','.join(fmt_q(v) for v in vals) if vals else '[]')
+        yield Case('arange_at start=%d stop=%d %s dtype=%s at=%s' % (start, stop, step_s, kind, fmt(pos)), H_E, oracle=o,
+                   cmp=cmp_at_scaled(max(abs(start), abs(stop))), nontrivial=L > 1,
+                   tags=['arange', 'arange.long', 'dtype=' + kind, 'step-real' if real_step else 'step-int',
+                         'empty' if L == 0 else 'non-empty', 'step<0' if sn < 0 else 'step>0'])
+    # (2) beyond the binary32-exact range (integer step): the model carries the float32 computation out literally, the
+    # oracle is NumPy's count; requests on which the two differ are the known finding arange.float32-length
+    fixed = [(0, 16777217, 1), (0, 16777216, 1), (0, 16777218, 1), (-16777217, 0, 1), (16777217, 0, -1), (0, 33554433, 16777216),
+             (0, 16777219, 2), (5, 50331653, 3), (0, 100, 16777217), (0, 2 ** 31 - 1, 1), (-(2 ** 30), 2 ** 30 - 1, 7),
+             (0, 2 ** 31 - 1, 2 ** 24 + 1), (2 ** 30, -(2 ** 30) + 1, -(2 ** 24 + 3))]
+    rnd = []
+    for _ in range(60 if tier == 'quick' else 600):
+        a = rng.randint(-(2 ** 30), 2 ** 30)
+        b = rng.randint(-(2 ** 30), 2 ** 30 - 1)
+        st = rng.choice((1, 1, 2, 3, 5, 2 ** 24 + rng.randint(1, 9), rng.randint(1, 2 ** 26))) * (1 if b >= a else -1)
+        if rng.random() < 0.1:
+            st = -st
+        if in_f32_range(a, b, st):
+            continue
+        rnd.append((a, b, st))
+    for start, stop, st in fixed + rnd:
+        L = arange_len_def(start, stop, st)
+        tail = 'data=huge' if L > 2 ** 20 else None
+        if tail is None:
+            tail = 'data=' + (fmt([start + k * st for k in range(L)]) if L else '[]')
+        yield Case('arange start=%d stop=%d step=%d dtype=int' % (start, stop, st), c04_bc.H_C, dom=False,
+                   oracle='ok shape=%d %s' % (L, tail), nontrivial=True, tags=['arange', 'arange.beyond-binary32'])
+
+
+# ---------------------------------------------------------------------------------------------------------------
+# linspace: exhaustive small quarter grid incl. num = 0 and num = 1; long sample counts probed at selected positions
+# ---------------------------------------------------------------------------------------------------------------
+
+def lin_key(name, q):
+    return '%s=%d' % (name, q // 4) if q % 4 == 0 else '%sq=%d' % (name, q)
+
+
+def linspace_def(aq, bq, num, endpoint, k):
+    """NumPy: start + k * (stop - start) / div, div = num - 1 with the endpoint (a single sample is start), else num"""
+    dv = num - 1 if endpoint else num
+    a, b = Fraction(aq, 4), Fraction(bq, 4)
+    return a + k * (b - a) / dv if dv > 0 else a
+
+
+def gen_linspace_more(tier, rng):
+    qs = list(range(-6, 9)) if tier == 'quick' else list(range(-9, 14))
+    nums = list(range(0, 5)) if tier == 'quick' else list(range(0, 8))
+    for a in qs:
+        for b in qs:
+            for n in nums:
+                for e in (0, 1):
+                    d = 'double' if (a + b + n + e) % 2 == 0 else 'float'
+                    vals = [linspace_def(a, b, n, e, k) for k in range(n)]
+                    o = 'ok shape=%d data=%s' % (n, ','.join(fmt_q(v) for v in vals) if vals else '[]')
+                    yield Case('linspace %s %s num=%d endpoint=%d dtype=%s' % (lin_key('start', a), lin_key('stop', b), n, e, d),
+                               c04_bc.H_C, oracle=o, cmp=c04_bc.cmp_real, nontrivial=n > 1 and a != b,
+                               tags=['linspace', 'linspace.grid', 'dtype=' + d, 'endpoint=%d' % e, 'num=%d' % n])
+    for _ in range(150 if tier == 'quick' else 1500):
+        a, b = rng.randint(-400, 400), rng.randint(-400, 400)
+        n = rng.choice((50, 64, 100, 257, 1000, 4097, rng.randint(7, 5000)))
+        e = rng.randint(0, 1)
+        d = rng.choice(('float', 'double'))
+        pos = sorted({0, 1, n // 3, n // 2, n - 2, n - 1})
+        vals = [linspace_def(a, b, n, e, k) for k in pos]
+        o = 'ok shape=%d at=%s' % (n, ','.join(fmt_q(v) for v in vals))
+        yield Case('linspace_at %s %s num=%d endpoint=%d dtype=%s at=%s' % (lin_key('start', a), lin_key('stop', b), n, e, d, fmt(pos)),
+                   H_E, oracle=o, cmp=cmp_at_scaled(max(abs(a), abs(b), abs(b - a)) / 4.0), nontrivial=a != b,
+                   tags=['linspace', 'linspace.long', 'dtype=' + d, 'endpoint=%d' % e])
+
+
+GENS = [gen_where_more, gen_arange_long, gen_linspace_more]
 
 
 def gen_more(tier, rng):
